@@ -184,3 +184,40 @@ Proof.
   apply forallb_forall. intros qr Hin. apply in_map_iff in Hin. destruct Hin as (q & <- & _).
   cbn [fst snd]. apply strs_eqb_refl.
 Qed.
+
+(** ---- removals remove exactly what they name ---- *)
+(** F: Cache.Remove(hashes): afterwards a hash is cached iff it was cached and is not listed;
+    every remaining certificate is unchanged (unknown, empty or repeated hashes do no harm) *)
+Theorem remove_exact names_of cap hs s k :
+  Inv names_of cap s ->
+  alookup k (cache (remove_hashes hs s)) = if mem_str k hs then None else alookup k (cache s).
+Proof. intros HI. apply (remove_hashes_lookup names_of cap hs s HI). Qed.
+
+(** F: Cache.RemoveManaged(subjects) run without interference: afterwards a cached certificate is
+    gone iff it is managed and lists one of the subjects EXACTLY (no wildcard expansion), of the
+    given issuer if one is given; the others are unchanged *)
+Theorem remove_managed_exact names_of cap sj s k c :
+  Inv names_of cap s -> alookup k (cache s) = Some c ->
+  alookup k (cache (remove_managed sj s)) =
+  if c_managed c && existsb (fun p => mem_str (fst p) (c_names c) && (is_nil (snd p) || str_eqb (c_issuer c) (snd p))) sj
+  then None else Some c.
+Proof.
+  intros HI E. unfold remove_managed. rewrite (remove_hashes_lookup names_of cap _ s HI).
+  rewrite (managed_queue_mem names_of cap s sj k c HI E). unfold managed_gone. rewrite E. reflexivity.
+Qed.
+
+(** F: replacing on renewal: afterwards the new certificate is cached -- as the new copy says if it
+    was not cached before -- and the old one is gone unless it is the same certificate; the
+    invariant holds whatever stale copy of the old certificate the caller held *)
+Theorem replace_effect names_of cap old new v s :
+  Inv names_of cap s -> wf_copy names_of old -> wf_cert names_of new ->
+  let s' := replace_cert cap old new v s in
+  Inv names_of cap s' /\ amem (c_hash new) (cache s') = true /\
+  (c_hash old <> c_hash new -> amem (c_hash old) (cache s') = false).
+Proof.
+  intros HI Ho Hn s'. split; [apply add_cert_inv; [apply remove_copy_inv|]; assumption|].
+  split; [apply add_cert_cached|]. intros Hne.
+  destruct (amem (c_hash old) (cache s')) eqn:Em; [|reflexivity]. exfalso.
+  apply add_cert_only_adds in Em. destruct Em as [Em|Em]; [congruence|].
+  cbn [remove_cert cache] in Em. rewrite amem_adelete, str_eqb_refl in Em. discriminate.
+Qed.
